@@ -37,9 +37,21 @@ PARTIAL = ('proved (Properties/C09.v, all closed under the global context): (1) 
            'C09_dense_operator_is_as_matrix), and (A) follows (C09_natural_implies_global) from the purely analytic contract solver_natural: for every unitary E intertwining the local operator handed to the solver with the dense matrix, '
            'E(solver(t) X) = G t (E X) -- i.e. the similarity invariance of the matrix exponential under unitaries, exp(t U^-1 H U) = U^-1 exp(tH) U (equivalently A U = U B => exp(tA) U = U exp(tB)); no frame, environment block or MPS occurs in it. '
            'Checked on the nilpotent rational example for all arguments over any ring (C09_nilpotent_solver_natural: solver = X + t*H_loc X, G = v + t*Hdense v) and the example run re-derived through it (C09_exact_natural_nonvacuous). '
-           'Remaining contracts of the exactness theorem: (F) flow in t, (S0) shapes, (IL)/(IR) (algebra proved; analytic part "H1 V = V H2 => exp(tH1) V = V exp(tH2)"), solver_natural, (G) group property of G, per-call QR contract. '
-           'NOT proved: exactness of the TWO-SITE integrator; exactness with quantum numbers (fails in some sectors: known finding K1, tdvp-*-mixed-complete-sector); that the floating-point Krylov exponential meets '
-           'the contracts (it does up to the Krylov error; measured by prop() against scipy.linalg.expm); reversibility when a bond matrix is rank deficient; contract (d) from the QR contract of orthonormalize')
+           'Remaining contracts of the single-site exactness theorem: (F) flow in t, (S0) shapes, (IL)/(IR) (algebra proved; analytic part "H1 V = V H2 => exp(tH1) V = V exp(tH2)"), solver_natural, (G) group property of G, per-call QR contract. '
+           '(4) EXACTNESS ON A COMPLETE MANIFOLD for the TWO-SITE integrator (integrate_local_twosite, tol_split = 0) WITHOUT quantum numbers (C09_exact2_complete: every L >= 2, every number of steps, every complete '
+           'bond profile / split site m; special cases C09_exact2_L2 -- a single pair, only (F2), (A2), (G) and the split contract are needed -- and C09_exact2_L3): dense(result) = G(n*dt) dense(normalised start state) and the returned number is the norm '
+           'reported by orthonormalize, RELATIVE TO contracts on the ONE solver oracle used for the merged two-site (forward) and the one-site (backward) problems: (F)/(F2) shape-preserving flow in the time argument on one-site / merged shapes; '
+           '(IL2)/(IR2) two-site solver on merge(Q, C) = merge(Q, one-site solver on C) for left-unitary Q resp. on merge(C, B) = merge(one-site solver on C, B) for right-unitary B, the one-site problem built with the model\'s own environment update '
+           '(encodes H_pair (Q x 1) = (Q x 1) H_site, PROVED for apply_local_hamiltonian / merge_mps_tensor_pair / merge_mpo_tensor_pair / contraction_operator_step_left/right: C09_pair_operators_intertwine_left/_right); (A2) between complete frames the two-site solver at the '
+           'ONE pair min(m, L-2) changes the dense state by G t; (G); per recorded split_mps_tensor call (C09_exact2_split_contract): the split is exact (merge of the answers = the tensor split), the kept bond has the profile dimension (= all singular values, '
+           'min(d*Ds i, d*Ds(i+2)), for Ds j = min(d^j, d^(L-j)): C09_min_profile_complete) and a SQUARE isometric factor is unitary -- weaker than what the SVD delivers, no uniqueness needed; hdt + hdt = dt; start tensors right of m right-unitary. '
+           'Proof: forward two-site step at (i,i+1) and backward one-site step at i+1 cancel left of the complete pair, the pending backward step cancels against the next two-site step right of it, the complete pair carries G. '
+           '(4b) (A2) is DERIVED (C09_exact2_complete_natural, _L2_natural, _L3_natural; split site with m+1 < L, no loss for min(d^j, d^(L-j))) from solver2_natural = similarity invariance of the matrix exponential under unitaries on merged pair tensors '
+           '(C09_natural2_implies_global: reduction to the single-site embedding theorem through the right-unitary identity tensor and C09_pair_operators_intertwine_right). The first-order polynomial solver X + t*H_loc X meets (IL2), (IR2), naturality for every operator chain '
+           '(C09_poly_solver_intertwines, C09_poly_solver_natural2). Non-vacuity: rational L = 4 instance (bonds 1,2,4,2,1, H = sigma+^{x4}, nilpotent local operators for all environments, rational exact split through fixed rational unitaries, 38 recorded calls, '
+           '10 splits checked by the kernel): C09_exact2_nonvacuous, C09_exact2_nontrivial, C09_nilpotent_solver_contracts2. '
+           'NOT proved: exactness with quantum numbers (fails in some sectors: known finding K1, tdvp-*-mixed-complete-sector); that the floating-point Krylov exponential and the LAPACK SVD meet '
+           'the contracts (they do up to rounding / the Krylov error; measured by prop() against scipy.linalg.expm); reversibility when a bond matrix is rank deficient; contract (d) from the QR contract of orthonormalize')
 ASSUMPTIONS = SR.ASSUMPTIONS
 RULE = ('exactness: complete manifolds (maximal bond dimensions of a charge sector, or no charges), L in 1..5, d in 2..3, Krylov dimension >= '
         'local dimension, real / imaginary / complex dt with |dt|*||H|| <= ~1, 1..3 steps, both integrators, against scipy.linalg.expm; '
@@ -66,6 +78,8 @@ def cases(rng, tier):
                     'sdtype': 'real' if rng.random() < 0.35 else 'complex'})
         if rng.random() < 0.15:
             out[-1]['hmag'] = rng.choice([-24, -27, 10])
+        elif rng.random() < 0.15:
+            out[-1]['quench'] = True
     SR.mark_replay(out, {'quick': 24, 'thorough': 120, 'search': 0}[tier], 'steps')
     return out
 
@@ -93,6 +107,18 @@ def impl(case):
         # magnitude regime: Hamiltonian times 2^hmag, time step divided by it (exact): the same evolution
         H.A[0] = H.A[0] * 2.0 ** case['hmag']
         dt = dt / 2.0 ** case['hmag']
+    if case.get('quench'):
+        # the same MPO object has been used by both integrators before, then its tensors are rescaled IN PLACE (a quench):
+        # the judged run must see the new Hamiltonian
+        try:
+            for f in (ptn.integrate_local_singlesite, ptn.integrate_local_twosite):
+                if L >= 2 or f is ptn.integrate_local_singlesite:
+                    warm = T.state(H, np.random.default_rng(case['seed'] + 1), Dmax=2)
+                    if float(np.linalg.norm(G.mps_dense(warm.A))) > 1e-10:
+                        f(H, warm, 0.05j, 1, numiter_lanczos=4)
+        except Exception:
+            pass
+        H.A[min(1, L - 1)] *= 0.5
     Hd = G.mpo_dense(H.A)
     hn = float(np.linalg.norm(Hd, 2))
     if abs(dt) * hn * case['steps'] > 1.5:
